@@ -424,6 +424,7 @@ func C07(c *core.Ctx) {
 		}
 	}
 	c.Sample(map[string]any{"scanner_behaviour": scs[len(scs)/2]})
+	c07grammar(c)
 	// (V) parse trees
 	rng := rand.New(rand.NewSource(c.Seed))
 	var texts []string
@@ -490,7 +491,11 @@ func C07(c *core.Ctx) {
 	c.Add("distinct_nontrivial", nt)
 	c.Set("texts_parsed_ok", okc)
 	c.Set("texts", len(cases))
-	c.Sample(map[string]any{"text": uniq[0], "tree": cases[0]["nodes"], "gaps": cases[0]["gaps"]})
+	tr, _ := cases[0]["nodes"].([]any)
+	if len(tr) > 12 {
+		tr = tr[:12]
+	}
+	c.Sample(map[string]any{"text": tailStr(uniq[0], 400), "tree_first_nodes": tr, "directives": cases[0]["dirs"]})
 	c.JudgeAndReport("Trace_Syntax", "Trace_Syntax.cfg", cases, 16,
 		func(old map[string]any) map[string]any { return parseCase(old["id"].(int), uniq[old["id"].(int)-1]) },
 		func(cs map[string]any) (string, string) {
